@@ -252,3 +252,157 @@ def hist(xs):
         k = str(x if x < 10 else (x // 10) * 10) + ('' if x < 10 else '+')
         h[k] = h.get(k, 0) + 1
     return h
+
+
+# ----------------------------------------------------------------------------------------------
+# properties decided by per-program kernel-checked certificates
+
+import certs, corpus, gen
+
+
+def ast_nontrivial(a):
+    if a is None:
+        return False
+    k = a.get('k')
+    if k in ('rep', 'alt', 'cls_bracketed', 'cls_perl', 'dot'):
+        return True
+    if k == 'group':
+        return ast_nontrivial(a['a'])
+    if k == 'concat':
+        return any(ast_nontrivial(x) for x in a['as'])
+    return False
+
+
+class CertProperty:
+    """C02 / C03: one certificate file per program, compiled (Qed-checked) by coqc."""
+    WHAT = 'c02'
+    N = {'quick': 100, 'thorough': 1500}
+
+    def programs(self, rng, tier):
+        progs = []
+        for name, modes, inp in corpus.repo_configs(include_veryl=(tier == 'thorough')):
+            progs.append({'name': name, 'modes': modes, 'inputs': [inp[:400]] if inp else []})
+        # enumerated small scope: single patterns and ordered pairs over two overlapping classes
+        atoms = ['a', '[ab]', '.']
+        small = []
+        for x in atoms:
+            for op in ['', '?', '*', '+', '{2}', '{1,2}', '{2,}']:
+                small.append(x + op)
+        for x in atoms:
+            for y in atoms:
+                small.append(x + y)
+                small.append('(' + x + '|' + y + ')')
+                small.append('(' + x + '|)' + y)
+                small.append('(' + x + y + ')*' + x)
+        lim = len(small) if tier == 'thorough' else 30
+        for i, p in enumerate(small[:lim]):
+            progs.append({'name': 'small%d' % i, 'modes': [{'name': 'M', 'patterns': [{'p': p, 't': 3}], 'transitions': []}], 'inputs': ['ab', 'aab']})
+        if tier == 'thorough':
+            for i, (p, q) in enumerate([(p, q) for p in small[:25] for q in small[:25]][:300]):
+                progs.append({'name': 'pair%d' % i, 'modes': [{'name': 'M', 'patterns': [{'p': p, 't': 1}, {'p': q, 't': 0}], 'transitions': []}], 'inputs': ['abab']})
+        for i in range(self.N[tier]):
+            r = rng.random()
+            if r < 0.5:
+                alpha = gen.pick_alpha(rng)
+                modes = [gen.gen_small_mode(rng, 'M%d' % k, alpha, rng.randint(1, 5), 0.3) for k in range(rng.randint(1, 2))]
+                inputs = [gen.gen_small_input(rng, alpha) for _ in range(2)]
+            else:
+                modes = gen.gen_config(rng, nmodes=rng.randint(1, 2), la_prob=0.25, depth=rng.randint(1, 3), max_pat=4)
+                inputs = [gen.gen_input(rng, modes) for _ in range(2)]
+            progs.append({'name': 'r%d' % i, 'modes': modes, 'inputs': inputs})
+        return progs
+
+    def explore(self, rng, tier, rdir, out, replay=None):
+        if replay:
+            payload = json.load(open(replay))
+            progs = [payload['program']] if 'program' in payload else []
+        else:
+            progs = self.programs(rng, tier)
+        jobs = [{'id': i, 'kind': 'sweep', 'modes': p['modes'], 'inputs': p.get('inputs', [])} for i, p in enumerate(progs)]
+        results = run_harness(jobs, rdir, 'sweep', timeout=3000)
+        files, metas = [], []
+        ninst = 0
+        for i, (p, r) in enumerate(zip(progs, results)):
+            if r.get('harness_panic'):
+                raise RuntimeError('harness panic: %s' % r['harness_panic'])
+            if r.get('build') != 'ok':
+                if not p.get('may_fail'):
+                    out.violations.append({'property': self.ID, 'what': 'supported configuration does not build: %s %s' % (r.get('build'), r.get('error', '')), 'program': p})
+                continue
+            if not all(r.get('leaf_builds', [])):
+                out.broken.append({'what': 'a pattern leaf does not build as a one-pattern scanner', 'detail': p})
+                continue
+            path = os.path.join(rdir, 'inst_%04d.v' % i)
+            names = certs.program_file(path, p['modes'], r, self.WHAT)
+            if names:
+                files.append(path)
+                metas.append((i, names))
+                ninst += len(names)
+        outs = coq_eval_files(files, timeout=2400)
+        checked = 0
+        failed_programs = []
+        for path, (i, names), (rc, o) in zip(files, metas, outs):
+            if rc == 0:
+                checked += len(names)
+            else:
+                failed_programs.append((i, path, o))
+        for i, path, o in failed_programs[:10]:
+            self.diagnose(i, progs[i], results[i], rdir, out, o)
+        seen = set()
+        nt = 0
+        for p, r in zip(progs, results):
+            if r.get('build') != 'ok':
+                continue
+            h = canon_hash(p['modes'])
+            if h in seen:
+                continue
+            seen.add(h)
+            if any(ast_nontrivial(a[0]) or ast_nontrivial(a[1]) for m in r['asts'] for a in m):
+                nt += 1
+        samples = [{'program': p['modes'], 'minterms': len(r.get('minterms', [])),
+                    'states': [len(m['dfa']['states']) for m in r['dump']['modes']]}
+                   for p, r in list(zip(progs, results))[-3:] if r.get('build') == 'ok']
+        return {'evaluations': len(progs), 'distinct_nontrivial': nt, 'programs': len(files),
+                'certificates_generated': ninst, 'certificates_checked_by_kernel': checked,
+                'disagreements_checked': len(failed_programs),
+                'rule': self.RULE, 'samples': samples or [{'note': 'none'}],
+                'minterms_hist': hist([len(r.get('minterms', [])) for r in results if r.get('build') == 'ok']),
+                'states_hist': hist([len(m['dfa']['states']) for r in results if r.get('build') == 'ok' for m in r['dump']['modes']]),
+                'exhaustive_alphabet': 'all 1112064 scalar values partitioned into minterms per program'}
+
+    def diagnose(self, i, prog, res, rdir, out, coq_out):
+        """A certificate failed: find the failing instance and a distinguishing word."""
+        path = os.path.join(rdir, 'diag_%04d.v' % i)
+        names = certs.program_file(path, prog['modes'], res, self.WHAT, diag=True)
+        rc, o = coqc_file(path, timeout=2400)
+        if rc != 0:
+            out.broken.append({'what': 'certificate %s does not check and the diagnosis failed' % os.path.basename(path),
+                               'detail': {'program': prog, 'coq': (coq_out[-1500:], o[-1500:])}})
+            return
+        blocks = split_evals(o)
+        found = False
+        for name, b in zip(names, blocks):
+            try:
+                flags, cex = parse_coq_value(b)
+            except Exception:
+                continue
+            if all(x == 1 for x in flags[:4]) and (self.WHAT != 'c02' or True):
+                continue
+            found = True
+            v = {'property': self.ID, 'program': prog, 'instance': name, 'checks': flags,
+                 'what': 'certificate fails: ' + ('automaton and patterns accept different token types' if self.WHAT == 'c02'
+                                                 else 'minimizer output differs from its input')}
+            if cex:
+                w, left, right = cex
+                word = certs.word_of_minterms(res, w)
+                v['word'] = word
+                v['word_codepoints'] = [ord(c) for c in word]
+                v['token_types_expected' if self.WHAT == 'c02' else 'token_types_before'] = left
+                v['token_types_automaton' if self.WHAT == 'c02' else 'token_types_after'] = right
+                out.violations.append(v)
+            else:
+                v['what'] += ' (no distinguishing word found within the search bound)'
+                out.broken.append({'what': v['what'], 'detail': v})
+        if not found:
+            out.broken.append({'what': 'certificate file %s does not compile although all checks evaluate to true' % os.path.basename(path),
+                               'detail': {'program': prog, 'coq': coq_out[-2000:]}})
